@@ -131,6 +131,13 @@ func typeName(t types.Type) string {
 	case *types.Slice:
 		return "[]" + typeName(tt.Elem())
 	case *types.Basic:
+		// byte and uint8 (rune and int32) are the same type under two names
+		switch tt.Kind() {
+		case types.Uint8:
+			return "byte"
+		case types.Int32:
+			return "int32"
+		}
 		return tt.Name()
 	case *types.Interface:
 		if tt.Empty() {
